@@ -181,17 +181,19 @@ def _roots_in_storage_ptr(a):
 
 
 def _pointee_const(ct):
+    """is the pointee of the (canonical) pointer type const-qualified?  Qualifiers of the
+    pointer object itself (const, restrict, __restrict, volatile after the last '*') are ignored."""
+    import re
     ct = (ct or '').strip()
-    if ct.endswith('*const') or ct.endswith('*restrict'):
-        ct = ct[:ct.rfind('*') + 1]
+    ct = re.sub(r'\*\s*((?:const|volatile|restrict|__restrict|__restrict__)\s*)+$', '*', ct).strip()
     if not ct.endswith('*'):
         return True
     inner = ct[:-1].strip()
-    if inner.endswith('const'):
+    if re.search(r'\bconst$', inner):
         return True
     if inner.endswith('*'):
         return False
-    return inner.startswith('const ')
+    return bool(re.match(r'^(?:volatile\s+)?const\b', inner))
 
 
 def lock_state_at(func, mutex_name, lock_apis=('pthread_mutex_lock',), unlock_apis=('pthread_mutex_unlock',),
